@@ -6,6 +6,7 @@ extern "C" {
 #endif
 void tbbrt_config(int workers, int concurrency);
 void tbbrt_shutdown(void);
+void tbbrt_reset(void);
 void tbbrt_stats(uint64_t* tasks, uint64_t* spawns, uint64_t* steals);
 #ifdef __cplusplus
 }
